@@ -122,7 +122,9 @@ def observe_impl(m):
     objs = []
     for w in m.geo:
         o = dict(tag=w.tag, nseg=w.n_segments, g0=bool(w.is_ground[0]), g1=bool(w.is_ground[1]),
-                 p0=[float(x) for x in w.endpoints[0]], p1=[float(x) for x in w.endpoints[1]],
+                 # the ends of the object as its segment table has them (what the conductor really is), not the
+                 # implementation's bookkeeping array used for the matching (that one is upstream data of the model tie)
+                 p0=[float(x) for x in w.segments[0].p1], p1=[float(x) for x in w.segments[-1].p2],
                  es0=w.end_segs[0], es1=w.end_segs[1], pulses=[p.idx for p in w.pulses])
         for e in (0, 1):
             o['conn%d' % e] = [[g.n, ow.n, ix, int(s)] for (g, ow, ix, s) in w.conn[e].list]
